@@ -296,6 +296,39 @@ def check_pairing(model, rep):
     return rm
 
 
+def check_compute_stores(model, rep):
+    """a derived variable that is recorded was computed (C17.computed) - and computing it means assigning it: every
+    completing path of compute_<x>() of every class stores the attribute <x> exactly once (a path that returns without
+    assigning leaves None, or the stale value of an earlier instant, to be recorded)"""
+    from sa.sx import SX, Ov, CannotDecide as _CD
+    sx = SX(model)
+    for cls in sorted(c for c in model.subclasses('RotatingObject') if not model.is_abstract_class(c)):
+        for key, meth in list(DERIVED.items()) + [('driving torque', 'compute_torque')]:
+            m = model.find_member(cls, meth)
+            if m is None:
+                continue
+            attr = VARIABLE_ATTR[key]
+            cons = f'{cls}.{meth}:stores'
+            try:
+                outs = sx.run(m.node, m.module, cls, Ov('self', cls, True))
+            except _CD as e:
+                rep.note('C17.computed', cons, f'not evaluated: {e}', m.loc)
+                continue
+            bad = None
+            for o in outs:
+                if o.kind not in ('fall', 'return'):
+                    continue
+                st = [e for e in o.state.effects if e[0] == 'store' and e[1] == 'self'
+                      and (sx.canon_field(cls, e[2]) == attr or e[2].strip('_').endswith(attr))]
+                if len(st) != 1:
+                    bad = (o, len(st))
+                    break
+            rep.decide(bad is None, 'C17.computed', cons,
+                       (f'a completing path (under `{" and ".join(g.show(sx.ctx)[:50] for g in bad[0].state.guards[-2:])}`) assigns {attr} {bad[1]} times: '
+                        f'the sample recorded at that instant is None or stale') if bad else '', loc=m.loc)
+            rep.inspect(len(outs))
+
+
 def check_computed(model, rep, rm):
     """record-condition implies compute-condition, per concrete class and derived variable (semantic: both
     conditions expanded to the optional-data atoms and compared over every assignment)"""
@@ -417,6 +450,7 @@ def check(model, rep):
         check_computed(model, rep, rm)
     except CannotDecide as e:
         rep.cannot('C17.pairing', 'Solver.run', str(e))
+    check_compute_stores(model, rep)
     check_kind(model, rep)
     from sa.forwarding import check_forwarding
     check_forwarding(model, rep, 'C17.forwarding', tuple(VARIABLE_ATTR.values()) + ('time_variables',))
